@@ -70,7 +70,7 @@ def check_modifiers(ctx, rep, tier):
     DOWN, UP = ks['Down'], ks['Up']
     mom = {fl: kc[k] for fl, k in keys['momentary_modifiers'].items()}
     caps_key, num_key = kc[keys['lock_modifiers']['capslock']], kc[keys['lock_modifiers']['numlock']]
-    rctrl2_atom = m.flag_atoms[ctx.mf['rctrl2']]
+    rctrl2_atom = m.flag_atoms[ctx.allmf['rctrl2']]
     rep.analysed['process_keyevent'] = {'fn': m.f['path'], 'path_classes': len(m.leaves), 'engine': dict(m.eng.stats)}
     n_trans = 0
     for lf in m.leaves:
@@ -81,7 +81,9 @@ def check_modifiers(ctx, rep, tier):
         # whole-object sanity: handle_ctrl / layout untouched by key events
         codes = sorted(lf.doms[m.code_atom])
         states = sorted(lf.doms[m.state_atom])
-        for fi, fname in enumerate(ctx.modfields):
+        for fi, fname in enumerate(ctx.allmodfields):
+            if fname in ctx.extra_modfields:
+                continue        # a flag the property does not describe (API extension): not judged
             fa = m.flag_atoms[fi]
             pv = post[fi]
             extra = [a for a in atoms_in(pv) if a not in (fa, rctrl2_atom, m.code_atom, m.state_atom)] if is_scalar(pv) else None
@@ -128,7 +130,11 @@ def check_modifiers(ctx, rep, tier):
     if len(lv) != 1 or lv[0].kind != 'return':
         raise Undecided('EventDecoder::new is not a single straight path')
     mods0 = lv[0].ret[3][m.i_mod]
-    for fi, fname in enumerate(ctx.modfields):
+    for x in ctx.extra_modfields:
+        rep.note('Modifiers has a flag the property does not describe: %s (not judged)' % x)
+    for fi, fname in enumerate(ctx.allmodfields):
+        if fname in ctx.extra_modfields:
+            continue
         v = mods0[3][fi]
         exp = 1 if keys['initial_modifiers'][fname] else 0
         if v[0] != 'c' or v[1] != exp:
@@ -157,7 +163,9 @@ def check_modifiers(ctx, rep, tier):
                 if lf.kind != 'return' or lf.ret is None:
                     continue
                 for mods in find_modifiers(lf.ret):
-                    for fi, fname in enumerate(ctx.modfields):
+                    for fi, fname in enumerate(ctx.allmodfields):
+                        if fname in ctx.extra_modfields:
+                            continue
                         v = mods[3][fi]
                         exp = 1 if keys['initial_modifiers'][fname] else 0
                         ok = v[0] == 'c' and v[1] == exp
@@ -333,7 +341,7 @@ def check_decoding(ctx, rep, tier):
     modkeys = {kc[k] for k in list(keys['momentary_modifiers'].values()) + list(keys['lock_modifiers'].values())}
     num_key = kc[keys['lock_modifiers']['numlock']]
     pause = kc[keys['pause_key']]
-    rctrl2_atom = m.flag_atoms[ctx.mf['rctrl2']]
+    rctrl2_atom = m.flag_atoms[ctx.allmf['rctrl2']]
     OPT = 'core::option::Option'
     RAW, UNI = ctx.dk['RawKey'], ctx.dk['Unicode']
     rep.analysed['process_keyevent'] = {'fn': m.f['path'], 'path_classes': len(m.leaves), 'engine': dict(m.eng.stats)}
